@@ -522,7 +522,8 @@ void hex4(std::string& o, unsigned v, bool upper, Prng& p, bool mixed) {
     o += "\\u";
     for (int sh = 12; sh >= 0; sh -= 4) {
         bool u = mixed ? (p.next() & 1) : upper;
-        o.push_back((u ? up : lo)[(v >> sh) & 15]);
+        const char* tab = u ? up : lo;  // (g++ 12 + UBSan miscompiles `(u ? up : lo)[v >> sh]`: the shift check reads an uninitialised temporary)
+        o.push_back(tab[(v >> sh) & 15]);
     }
 }
 
